@@ -32,10 +32,10 @@ func unhx(s string) []byte {
 
 // Violation is one property failure found on the implementation.
 type Violation struct {
-	Key    string `json:"key"`  // structural key (matched against known_findings.json)
-	What   string `json:"what"` // human description
-	Replay any    `json:"replay"`
-	NoInput bool  `json:"no_failing_input_found,omitempty"`
+	Key     string `json:"key"`  // structural key (matched against known_findings.json)
+	What    string `json:"what"` // human description
+	Replay  any    `json:"replay"`
+	NoInput bool   `json:"no_failing_input_found,omitempty"`
 }
 
 // Report is what a harness subcommand hands back to the check script.
@@ -62,8 +62,8 @@ func newReport(prop, tier string, seed int64) *Report {
 	return &Report{Property: prop, Tier: tier, Seed: seed, Dist: map[string]int{}, distinct: map[string]bool{}, start: time.Now()}
 }
 
-func (r *Report) count(k string)            { r.Dist[k]++ }
-func (r *Report) nontrivial(canon string)   { r.distinct[canon] = true }
+func (r *Report) count(k string)          { r.Dist[k]++ }
+func (r *Report) nontrivial(canon string) { r.distinct[canon] = true }
 func (r *Report) sample(s any) {
 	if len(r.Samples) < 6 {
 		r.Samples = append(r.Samples, s)
